@@ -265,8 +265,8 @@ REGISTRY = {
              "what": "the public ClockCache API (insert / get / remove / evict_entries / clear / adjust_watermarks / stats) under 1-4 MB watermarks with 40-220 KB entries vs Model.Cache (buckets by murmur3, CLOCK hand, MAX_SCANS, large-value rule): every hit/miss with the value, memory_usage, eviction count and watermarks after every call; oracle: no hit after an explicit remove, usage at or below the low watermark after evict_entries, zero after clear"},
             seq({"only": "persistent", "n": 2, "ops": 80, "seedoff": 16}, {"only": "persistent", "seedoff": 16}),
         ],
-        "nontrivial_rule": "cache: a case is one operation sequence on a fresh cache, non-trivial when it had at least one hit and at least one eviction; seq: as C01 restricted to the 12 persistent configurations (cache on and off), both must equal the same reference map",
-        "assumptions": ["size_of::<CacheEntry>() is measured through the public accounting of a one-entry cache", "the generation-tagged internal API (get_for_record, insert_for_record, remove_for_record, record_entry) is exercised only through the store"],
+        "nontrivial_rule": "cache: a case is one operation sequence on a fresh cache, non-trivial when it had at least one hit and at least one eviction; seq: as C01 restricted to the 12 persistent configurations (cache on and off), both must equal the same reference map; cgen: one sequence of tagged cache calls, non-trivial when a lookup hit",
+        "assumptions": ["size_of::<CacheEntry>() is measured through the public accounting of a one-entry cache", "Weak<Record> keeps the allocation of a cached generation, so a pointer-identity tag is never reused while its entry exists (Model.CacheGen: identities are never reused)", "Model.CacheGen layer B (the store's read/write/TTL paths around the cache) is tied to the code by the sequence and race engines only; layer A by hook H13", "a disk read that is not refused returns the value of the generation read (C08)"],
     },
     "C17": {
         "title": "opening arbitrary or damaged files fails cleanly",
@@ -315,6 +315,8 @@ REGISTRY["C11"]["teq"].append({"engine": "sweep", "quick": {"n": 16, "seedoff": 
 # refused writes (memory limit; memory-only and persistent): next to records still in the write-behind buffer (C01, C13),
 # and with explicit timestamps that a failing call must not leave in the clock (C12)
 REGISTRY["C01"]["teq"].append(seq({"only": "limited", "n": 10, "ops": 80, "seedoff": 101}, {"only": "limited", "seedoff": 101}))
+# round 8 (C01h): range queries with small limits over key sets holding expired, unswept entries are C01 business too
+REGISTRY["C01"]["teq"].append(seq({"seedoff": 201, "focus": 1, "n": 6, "ops": 60}, {"focus": 1, "seedoff": 201}))
 REGISTRY["C13"]["teq"].append({"engine": "conc", "quick": {"n": 150, "mode": "hist", "accounting": 1, "seedoff": 13}, "thorough": {"n": 4000, "mode": "hist", "accounting": 1, "seedoff": 13},
                                 "oracle": True, "mismatch_is_failure": False, "timeout": 3400,
                                 "nontrivial": lambda case, res: res == "lin=1", "distinct_key": lambda case, res: case,
@@ -350,6 +352,10 @@ for _pid in ("C02", "C09"):
                                   "oracle": False, "mismatch_is_failure": True, "timeout": 3400,
                                   "nontrivial": lambda case, res: case.count(" ") >= 4, "distinct_key": lambda case, res: case,
                                   "what": "T-eq for Model.Gate (hook H12): Record::successor_is_durable_or_deleted -- the gate consulted before a superseded generation's extent is retired -- on synthetic forward successor chains of 1-9 generations with every mix of durable, live, deleted and superseded nodes and of memo bits; the answer and the memo bits afterwards must equal Model.Gate.gate"})
+REGISTRY["C16"]["teq"].append({"engine": "cgen", "quick": {"n": 4000, "seedoff": 616}, "thorough": {"n": 120000, "seedoff": 616},
+                                "oracle": False, "mismatch_is_failure": False, "timeout": 3400,
+                                "nontrivial": lambda case, res: any(t != "-" and int(t) >= 100 for t in res.split()), "distinct_key": lambda case, res: case,
+                                "what": "T-eq for Model.CacheGen layer A (hook H13): get_for_record / insert_for_record / remove_for_record / record_entry and can_replace_generation of a real ClockCache over real Records -- random sequences over 1-3 keys and up to 8 generations created with colliding and decreasing timestamps, superseded (refcount 0), dropped, looked up, filled, removed, re-tagged, mixed with the untagged public calls; every result must equal Model.CacheGen.arun (non-trivial = at least one lookup hit)"})
 REGISTRY["C02"]["teq"].append({"engine": "failpath", "quick": {"n": 4, "burst_every": 1, "seedoff": 402}, "thorough": {"n": 40, "burst_every": 1, "seedoff": 402},
                                 "oracle": True, "mismatch_is_failure": False, "timeout": 3400,
                                 "nontrivial": lambda case, res: "failpath-burst" in case, "distinct_key": lambda case, res: case,
